@@ -4,6 +4,7 @@ import (
 	"encoding/json"
 	"flag"
 	"fmt"
+	"go/constant"
 	"os"
 	"path/filepath"
 	"sort"
@@ -46,6 +47,7 @@ type HarnessResult struct {
 	FPRoundings int                   `json:"fp_roundings"`
 	SkippedGo   map[string]int        `json:"goroutines_not_started"`
 	Steps       int                   `json:"steps"`
+	Labels      []string              `json:"labels_declared"`
 }
 
 type Output struct {
@@ -250,6 +252,70 @@ func runHarness(prog *ssa.Program, pkg *ssa.Package, name, mode, solverName stri
 		}
 		sort.Slice(hr.Functions, func(i, j int) bool { return hr.Functions[i].Name < hr.Functions[j].Name })
 	}()
+	hr.Labels = collectLabels(pkg, fn)
 	e.explore(fn)
 	return
+}
+
+// collectLabels statically collects the constant labels of verifAssert/verifReach calls
+// reachable from the harness function (vacuity witnesses: each must be reached on some path).
+func collectLabels(pkg *ssa.Package, root *ssa.Function) []string {
+	seen := map[*ssa.Function]bool{}
+	labels := map[string]bool{}
+	var visit func(f *ssa.Function)
+	visit = func(f *ssa.Function) {
+		if f == nil || seen[f] || f.Blocks == nil {
+			return
+		}
+		seen[f] = true
+		for _, b := range f.Blocks {
+			for _, ins := range b.Instrs {
+				switch in := ins.(type) {
+				case *ssa.MakeClosure:
+					visit(in.Fn.(*ssa.Function))
+				}
+				var cc *ssa.CallCommon
+				switch in := ins.(type) {
+				case *ssa.Call:
+					cc = &in.Call
+				case *ssa.Defer:
+					cc = &in.Call
+				case *ssa.Go:
+					cc = &in.Call
+				}
+				if cc == nil {
+					continue
+				}
+				if callee := cc.StaticCallee(); callee != nil {
+					n := callee.Name()
+					if (n == "verifAssert" || n == "verifReach") && len(cc.Args) > 0 {
+						if c, ok := cc.Args[0].(*ssa.Const); ok && c.Value != nil {
+							labels[constant.StringVal(c.Value)] = true
+						}
+						continue
+					}
+					if strings.HasPrefix(n, "verif") || (callee.Parent() != nil) {
+						if callee.Pkg == pkg || callee.Parent() != nil {
+							visit(callee)
+						}
+					}
+				}
+				for _, a := range cc.Args {
+					if fn, ok := a.(*ssa.Function); ok {
+						visit(fn)
+					}
+				}
+			}
+		}
+		for _, af := range f.AnonFuncs {
+			visit(af)
+		}
+	}
+	visit(root)
+	var out []string
+	for l := range labels {
+		out = append(out, l)
+	}
+	sort.Strings(out)
+	return out
 }
